@@ -328,6 +328,7 @@ SCHEMA = {
     20: ("q qopt", ["address", "subaddress"]),
     27: ("gplat gplon gpalt", ["latitude", "longitude", "altitude"]),
     25: ("keyrec", [("flags", "protocol", "algorithm", "key")]),
+    42: ("apl", ["items"]),
     250: ("nnr d48 d16 mac d16 ercode b64opt", ["algorithm", "time_signed", "fudge", "mac", "original_id", "error", "other"]),
     # composite kinds take several constructor arguments / attributes
     45: ("d8 gwi b64e", ["precedence", ("gateway_type", "algorithm", "gateway"), "key"]),
@@ -394,6 +395,19 @@ def gen_field(rng, kind):
             if t in ("", "-", "+", ".", "-.", "+."):
                 t = "1"
         return t.encode()
+    if kind == "apl":
+        items = []
+        for _ in range(rng.choice([0, 1, 1, 2, 3, 5])):
+            fam = rng.choice([1, 1, 2, 2, 0, 3, 255, 65535])
+            if fam == 1:
+                a, p = gen_field(rng, "a4"), rng.choice([0, 8, 24, 32])
+            elif fam == 2:
+                a, p = gen_v6(rng), rng.choice([0, 32, 64, 128])
+            else:
+                a = binascii.hexlify(gen_bytes(rng, 12))
+                a, p = (a.upper() if rng.random() < 0.3 else a), rng.choice([0, 8, 255])
+            items.append([fam, rng.randrange(2), a, p])
+        return items
     if kind == "keyrec":
         f = rng.choice([0, 256, 257, 512, 0x4000, 0x8000, 0xC000, 0xC000, 0xC123, 0xFFFF, rng.randrange(65536)])
         k = b"" if (f & 0xC000) == 0xC000 else (gen_bytes(rng, 50) or b"\x01")
@@ -494,6 +508,10 @@ def build_rdata(rdtype, vals):
             flat += [g, alg, gwo] if k == "gwi" else [g, gwo]
         elif k == "keyrec":
             flat += list(a)
+        elif k == "apl":
+            import dns.rdtypes.IN.APL as _apl  # noqa
+            flat.append([_apl.APLItem(f, bool(n), ad if f not in (1, 2) else (dns.ipv4.inet_ntoa(ad) if f == 1 else dns.ipv6.inet_ntoa(ad)), px)
+                         for f, n, ad, px in a])
         elif k == "d1":
             flat.append(bool(a))
         else:
@@ -522,6 +540,12 @@ def schema_cases(ctx):
         for dt in (0, 1, 2, 3, 4, 5, 255, 256):
             for n in sorted({1, 2, DS_LEN.get(dt, 7), DS_LEN.get(dt, 7) + 1}):
                 yield "rd-from-text", [41, rdtype, enc("60485 %s %d %s" % (rng.choice(["5", "8", "RSASHA1", "ED25519"]), dt, "ab" * n)), [None, 1, None]]
+    # APL: the shapes of an item
+    for t in ("1:10.0.0.0/8", "!1:10.0.0.0/8", '"1:10.0.0.0/8"', "!", "1", "1:", "1:/", "1:1.2.3.4", "1:1.2.3.4/", "1:1.2.3.4/33", "2:::/0", "2:::/129",
+              "2:2001:db8::1/128", "3:/0", "3:0a/8", "3:0A/8", "3:0g/8", "3:0/8", "65536:00/8", "-1:00/8", "+1:1.2.3.4/+8", "1 :1.2.3.4/8",
+              "\\0491:1.2.3.4/8", "1:1.2.3.4/8/9", "1:1.2.3.4:5/8", "01:1.2.3.4/08", "1_0:00/8", "", "1:1.2.3.4/8 ; c", "1:1.2.3.4/8 !2:::/0 3:/255",
+              "3:" + "ab" * 127 + "/0", "3:" + "ab" * 128 + "/0", "3:00/256"):
+        yield "rd-from-text", [41, 42, enc(t), [None, 1, None]]
     # KEY: flag / protocol mnemonics, NOKEY with and without key, raw (not unescaped) first tokens
     for t in ("NOKEY|FLAG2 3 8", "HOST|SIG3 TLS RSASHA256 AQID", "ZONE|ZONE 3 5 AQID", "zone 3 5 AQID", "NOKEY 3 8 AQID", "256|ZONE 3 5 AQID",
               "\\ZONE DNSSEC 8 AQID", '"ZONE" IPSEC 8 AQID', "70000 3 8 AQID", "USER|SIG0 ALL 8 AQID", "| 3 8 AA==", "ZONE| 3 8 AA==",
@@ -767,7 +791,7 @@ def in_model(kind, case):
         text = dec(case[2])
         # names go through the IDNA codec when the text is not ASCII; the generic-syntax branch of a
         # schema type needs the wire codec (C02): neither is part of this model
-        if any(ord(c) > 127 for c in text) and (set(SCHEMA[case[1]][0].split()) & {"n", "nnr", "names", "gwi", "gwa", "keyrec", "bm", "etype", "escheme", "ectype", "ealg", "ealgnum", "sigtime", "alg"}):
+        if any(ord(c) > 127 for c in text) and (set(SCHEMA[case[1]][0].split()) & {"n", "nnr", "names", "gwi", "gwa", "keyrec", "apl", "bm", "etype", "escheme", "ectype", "ealg", "ealgnum", "sigtime", "alg"}):
             return False
         if "a6" in SCHEMA[case[1]][0] and ("\\" in text or any(ord(c) > 127 for c in text)):
             # escapes can put a line break into the address text (regular-expression corner case)
@@ -924,6 +948,11 @@ def impl(case):
                     continue
                 if k == "keyrec":
                     out.append([int(v[0]), int(v[1]), int(v[2]), bytes(v[3])])
+                    continue
+                if k == "apl":
+                    out.append([[int(i.family), int(i.negation),
+                                 dns.ipv4.inet_aton(i.address) if i.family == 1 else dns.ipv6.inet_aton(i.address) if i.family == 2 else bytes(i.address),
+                                 int(i.prefix)] for i in v])
                     continue
                 if k == "nnr":
                     out.append(nl.labels_of(v))
